@@ -34,27 +34,30 @@ func (c07) Cases(tier string) int {
 
 func (c07) Thresholds(tier string) map[string]int64 {
 	return map[string]int64{
-		"save-points":                       2000,
-		"restore:fresh":                     300,
-		"restore:mid-node":                  300,
-		"restore:waiting-for-choice":        200,
-		"restore:waiting-for-command":       300,
-		"restore:ended":                     300,
-		"restore:restored-before":           300,
-		"restore:donor-itself":              300,
-		"restore-crossed-jump-afterwards":   300,
-		"alias-probe-two-receivers":         300,
-		"unknown-node-restore-refused":      500,
-		"snapshot-after-jump":               400,
-		"prepopulated-store":                200,
-		"receiver-state-confirmed-by-hook":  1000,
-		"host-modified-a-taken-snapshot":    1000,
-		"host-modified-a-restored-snapshot": 500,
+		"save-points":                               2000,
+		"restore:fresh":                             300,
+		"restore:mid-node":                          300,
+		"restore:waiting-for-choice":                200,
+		"restore:waiting-for-command":               300,
+		"restore:ended":                             300,
+		"restore:restored-before":                   300,
+		"restore:donor-itself":                      300,
+		"restore-crossed-jump-afterwards":           300,
+		"alias-probe-two-receivers":                 300,
+		"unknown-node-restore-refused":              500,
+		"snapshot-after-jump":                       400,
+		"prepopulated-store":                        200,
+		"receiver-state-confirmed-by-hook":          1000,
+		"host-modified-a-taken-snapshot":            1000,
+		"host-write-between-donor-steps":            250,
+		"restore:hand-built-snapshot-with-nil-maps": 400,
+		"refused-restore-while-waiting-for-command": 60,
+		"host-modified-a-restored-snapshot":         500,
 	}
 }
 
 func (c07) Rule() string {
-	return "case = one generated program (no random built-ins; visit-count lines; an unreachable node holding a never-completing command) and one PRNG donor path. A snapshot is taken after EVERY step of the donor (step 0 included) and compared with the model's checkpoint of the most recent node entry; a deep copy made at creation is compared again after the donor and every receiver moved on. Selected save points (each distinct node entry + random ones) are restored into receivers in each state {fresh, mid-node, waiting for a choice, waiting for a command, ended, restored before, the donor itself}; right after RestoreAt the receiver's Snapshot() must equal the restored one, then the receiver is driven along PRNG continuations and compared with the model started at that checkpoint; one probe restores the same snapshot into two receivers advanced alternately; a snapshot naming an unknown node must be refused and change nothing; snapshots the host took or restored from are modified by the host afterwards (they are its own values), which must not reach any runner. Non-trivial: the save point is after >=1 jump and the receiver is not fresh, or an alias probe crossed a jump. Distinct by hash of scripts+choices+save point+receiver state."
+	return "case = one generated program (no random built-ins; visit-count lines; an unreachable node holding a never-completing command) and one PRNG donor path. Between donor steps the host now and then writes to the store it supplied. A snapshot is taken after EVERY step of the donor (step 0 included) and compared with the model's checkpoint of the most recent node entry; a deep copy made at creation is compared again after the donor and every receiver moved on. Selected save points (each distinct node entry + random ones) are restored into receivers in each state {fresh, mid-node, waiting for a choice, waiting for a command, ended, restored before, the donor itself}; right after RestoreAt the receiver's Snapshot() must equal the restored one, then the receiver is driven along PRNG continuations and compared with the model started at that checkpoint; one probe restores the same snapshot into two receivers advanced alternately; a snapshot naming an unknown node must be refused and change nothing; snapshots the host took or restored from are modified by the host afterwards (they are its own values), which must not reach any runner. Non-trivial: the save point is after >=1 jump and the receiver is not fresh, or an alias probe crossed a jump. Distinct by hash of scripts+choices+save point+receiver state."
 }
 
 func (c07) Assumptions() []string {
@@ -179,6 +182,16 @@ func (p c07) Run(c *core.Ctx) {
 		if diff != "" {
 			fail(donor, "donor run diverges from the model: "+diff, map[string]any{"expected": outcomeString(want), "observed": got.String()})
 			return
+		}
+		// between two steps the host writes to the store it supplied (a new variable, or a same-type
+		// overwrite of its own variable): the next node entry must capture it
+		if (want.Kind == model.OLine || want.Kind == model.OOptions) && r.Chance(1, 5) {
+			name := r.Pick("hostvar", "gold", "hôte")
+			cur, has := donor.M.Vars[name]
+			if !has || cur.T == hast.TNum {
+				donor.HostWrite(name, model.N(float64(step*10+r.Intn(9))))
+				c.Feature("host-write-between-donor-steps")
+			}
 		}
 		if !take(step) {
 			return
@@ -401,6 +414,30 @@ func (p c07) Run(c *core.Ctx) {
 		}
 		if !stillIntact("two receivers restored from one snapshot moved on") {
 			return
+		}
+	}
+
+	// ---- a snapshot built by hand (as a host decoding a save file would): only the node is given,
+	// both maps are nil
+	{
+		rc := prepare(states[r.Intn(5)])
+		if rc == nil {
+			if c.Failed() {
+				return
+			}
+		} else {
+			node := prog.Nodes[r.Intn(len(prog.Nodes)-1)].Title // not the Limbo node
+			hand := &ysgo.Snapshot{CurrentNode: node}
+			if err := rc.R.DR.RestoreAt(hand); err != nil {
+				fail(rc, "RestoreAt refused a hand-built snapshot naming an existing node: "+err.Error(), nil)
+				return
+			}
+			rc.M.Restore(model.Snapshot{Node: node})
+			rc.Trace = append(rc.Trace, "RestoreAt(&Snapshot{CurrentNode: "+node+"}) (nil maps)")
+			if !continueFrom(rc, 40, "hand-built-snapshot", save{copy: hand}) {
+				return
+			}
+			c.Feature("restore:hand-built-snapshot-with-nil-maps")
 		}
 	}
 
